@@ -6,8 +6,8 @@
    walker [walk]), ARBITRARY name check and file lookup [find] (every file map, every load path) and
    arbitrary constants - hence also for the concrete instance of Model/ReqEmbedInst.v, for which the
    second group gives the fuel bound. *)
-From PV Require Import Base.Prelude Model.ReqEmbed Model.ReqEmbedInst Proofs.ReqEmbedProofs
-  Proofs.ReqEmbedInstProofs.
+From PV Require Import Base.Prelude Generated.T_files_build Model.ReqEmbed Model.ReqEmbedInst
+  Proofs.ReqEmbedProofs Proofs.ReqEmbedInstProofs.
 
 Section Abstract.
 Variable P : Type.
@@ -118,6 +118,14 @@ Theorem C14_errors_missing_file : forall fuel main_path main_content m n gl,
 Proof. exact (build_missing_file P parse_lines echo strip walk file_lines check_name find
                                   preamble_package preamble_require header_line end_line nl_line). Qed.
 
+(* the search is exactly the fuel-free depth-first relation Run (Proofs/ReqEmbedProofs.v: for each
+   require of a name not yet in the table, append the package, then everything its own evaluation
+   appends, then go on): some fuel computes pk' iff pk' = pk ++ new for a run of the relation *)
+Theorem C14_dfs_exact : forall p path pk pk',
+  (exists k, eval k p path pk = Ok pk') <->
+  (exists new, pk' = pk ++ new /\ Run P parse_lines strip walk file_lines check_name find p path pk new).
+Proof. exact (eval_iff_Run P parse_lines strip walk file_lines check_name find). Qed.
+
 (* termination: if every require string any loadable package or the main program can yield lies in
    a list U, then |U| + 1 levels of recursion suffice - a larger fuel never changes the result
    (cycles stop at the visited check; the table only grows) *)
@@ -179,6 +187,33 @@ Theorem C14_terminates_now : forall cwd fs lua_path main_path main_content fuel'
   build_lua_now cwd fs lua_path (fuel_now fs main_content) main_path main_content.
 Proof. exact build_fuel_now. Qed.
 
+(* the token-level statement for the concrete stack: the constants' side conditions and the loss-free
+   file iteration are discharged; what remains assumed concerns the lexer stack only - the chunking
+   property of the reference tokenizer and the faithful echo of the lexer model (C07 / C06) *)
+Theorem C14_tokens_partial_now : forall (T : Type) (sigt : bytes -> option (list T)),
+  (forall a b ta tb, ends_with_nl a = true -> sigt a = Some ta -> sigt b = Some tb ->
+                     sigt (a ++ b) = Some (ta ++ tb)) ->
+  (forall a ta, sigt a = Some ta -> sigt (a ++ [10]) = Some ta) ->
+  sigt [] = Some [] ->
+  (forall ls q, from_lines ls = Ok q -> concat (echo_lines q) = concat ls) ->
+  forall cwd fs lua_path fuel main_path main_content out,
+  build_code_now cwd fs lua_path fuel main_path main_content = Ok out ->
+  exists r pk, build_lua_now cwd fs lua_path fuel main_path main_content = Ok (r, pk) /\
+    let toks := toks T sigt in
+    let lexes := lexes T sigt in
+    (Forall lexes require_lua_preamble_package -> Forall lexes require_lua_preamble_require ->
+     lexes end_line_now ->
+     Forall (fun e => lexes (header_line_now (fst e)) /\ lexes (concat (echo_lines (snd e)))) pk ->
+     lexes main_content ->
+     sigt out = Some match pk with
+                     | [] => toks main_content
+                     | _ => concat (map toks require_lua_preamble_package)
+                            ++ concat (map (fun e => toks (header_line_now (fst e))
+                                                     ++ toks (concat (echo_lines (snd e))) ++ toks end_line_now) pk)
+                            ++ concat (map toks require_lua_preamble_require) ++ toks main_content
+                     end).
+Proof. exact build_code_tokens_now. Qed.
+
 Print Assumptions C14_structure.
 Print Assumptions C14_structure_bytes.
 Print Assumptions C14_unstripped_block.
@@ -190,6 +225,8 @@ Print Assumptions C14_errors_missing_file.
 Print Assumptions C14_terminates.
 Print Assumptions C14_tokens_partial.
 Print Assumptions C14_terminates_now.
+Print Assumptions C14_dfs_exact.
+Print Assumptions C14_tokens_partial_now.
 
 (* non-vacuity: a main program and two packages that require each other (a cycle), one game loop
    function each, one package without a final newline; the build succeeds, embeds each package once
